@@ -313,6 +313,10 @@ def _build(geom, name, fill=0.0):
     import robotools
 
     if geom["trough"]:
+        if (geom["rows"] + geom["cols"]) % 3 == 0:
+            # legacy construction of a trough (Labware with virtual rows, not an instance of Trough)
+            return robotools.Labware(name, 1, geom["cols"], min_volume=0, max_volume=1e9, initial_volumes=fill,
+                                     virtual_rows=geom["rows"])
         return robotools.Trough(name, geom["rows"], geom["cols"], min_volume=0, max_volume=1e9, initial_volumes=fill)
     return robotools.Labware(name, geom["rows"], geom["cols"], min_volume=0, max_volume=1e9, initial_volumes=fill)
 
